@@ -100,3 +100,31 @@ Qed.
 (* which bytes have no character in the implementation's table *)
 Definition undecoded : list Z :=
   filter (fun b => match macroman_to_char b with None => true | Some _ => false end) (range 0 256).
+
+(* the bytes without a character: exactly the 15 codes that PDF's MacRomanEncoding leaves out of
+   Mac OS Roman (known finding C06-macroman-coverage) *)
+Definition undecoded_bytes : list Z := [173; 176; 178; 179; 182; 183; 184; 185; 186; 189; 195; 197; 198; 215; 240].
+
+Definition check_undecoded (b : Z) : bool :=
+  match macroman_to_char b with
+  | None => existsb (Z.eqb b) undecoded_bytes
+  | Some _ => negb (existsb (Z.eqb b) undecoded_bytes)
+  end.
+
+Lemma undecoded_sweep : forallb check_undecoded (range 0 256) = true.
+Proof. vm_compute. reflexivity. Qed.
+
+Theorem macroman_undecoded b :
+  0 <= b < 256 -> (macroman_to_char b = None <-> In b undecoded_bytes).
+Proof.
+  intros Hb. pose proof undecoded_sweep as S. rewrite forallb_forall in S.
+  assert (Hin : In b (range 0 256)) by (apply range_In; lia).
+  specialize (S b Hin). unfold check_undecoded in S.
+  assert (E : existsb (Z.eqb b) undecoded_bytes = true <-> In b undecoded_bytes).
+  { rewrite existsb_exists. split.
+    - intros (x & Hx & Hbx). assert (b = x) by lia. subst. exact Hx.
+    - intros H. exists b. split; [exact H | lia]. }
+  destruct (macroman_to_char b) as [c|].
+  - split; [discriminate|]. intros H. apply E in H. rewrite H in S. discriminate.
+  - split; [intros _; apply E; exact S | reflexivity].
+Qed.
